@@ -35,6 +35,7 @@ STMT_BUNDLES = {
     'import': ['import {n}', 'obs({n})'],
     'import_as': ['import os as {n}', 'obs({n})'],
     'import_dotted_as': ['import os.path as {n}', 'obs({n})'],
+    'import_dotted': ['import xml.dom.minidom', 'obs((xml.__name__,xml.dom.__name__,xml.dom.minidom.__name__))', 'obs({n})'],
     'from_import': ['from {n} import {n}', 'obs({n})'],
     'from_import_as': ['from os import sep as {n}', 'obs({n})'],
     'def': ["def {n}():return'{t}'", 'obs({n})'],
@@ -54,6 +55,8 @@ STMT_BUNDLES = {
     'global_del': ['global {n}', "{n}='{t}'", 'del {n}'],
     'nonlocal': ['nonlocal {n}', "{n}='{t}'", 'obs({n})'],
     'nonlocal_load': ['nonlocal {n}', 'obs({n})'],
+    'ann_var_self': ["{n}:{n}='{t}'", 'obs({n})'],          # variable annotated with its own name (evaluated in module/class scope, not in functions)
+    'ann_var_obs': ["v_:obs({n})=0", 'obs({n})'],
 }
 MODULE_EXCLUDED = ('global', 'global_load', 'global_del', 'nonlocal', 'nonlocal_load')
 
@@ -70,7 +73,19 @@ DEF_PARAM_BUNDLES = {
     'param_second': ('p_,{n}', "0,'{t}'", ['obs({n})']),
     'param_rebind': ('{n}', "'{t}'", ["{n}={n}+'!'", 'obs({n})']),
     'param_del': ('{n}', "'{t}'", ['del {n}', 'obs({n})']),
+    # parameters annotated with their own name: the annotation is evaluated in the *enclosing* scope, the parameter lives in the function
+    'param_ann_self': ("{n}:{n}='{t}'", '', ['obs({n})']),
+    'param_kwonly_ann_self': ("*,{n}:{n}='{t}'", '', ['obs({n})']),
+    'param_posonly_ann_self': ("{n}:{n}='{t}',/", '', ['obs({n})']),
+    'param_vararg_ann_self': ('*{n}:{n}', "'{t}'", ['obs({n})']),
+    'param_kwarg_ann_self': ('**{n}:{n}', "k='{t}'", ['obs({n})']),
+    'param_ann_obs': ("p_:obs({n})=0", '', ['obs({n})']),
+    'param_kwonly_ann_obs': ("*,k_:obs({n})=0", '', ['obs({n})']),
+    'return_ann_self': (")->({n}", '', ["{n}='{t}'", 'obs({n})']),
+    'return_ann_obs': (")->(obs({n})", '', ['obs({n})']),
 }
+ANN_PARAM_BUNDLES = ('param_ann_self', 'param_kwonly_ann_self', 'param_posonly_ann_self', 'param_vararg_ann_self', 'param_kwarg_ann_self', 'param_ann_obs',
+                     'param_kwonly_ann_obs', 'return_ann_self', 'return_ann_obs')
 
 # lambda: (params, call args, body items)
 LAMBDA_BUNDLES = {
@@ -106,6 +121,7 @@ COMP_BUNDLES = {
 
 # slots -----------------------------------------------------------------------------------------------------------------------------------
 STMT_PARENT_EXPR_SLOTS = ('expr', 'default', 'kwdefault', 'decorator', 'base', 'classkw', 'fstring', 'lambda_default_chain')
+ANN_SLOTS = ('ann_param', 'ann_kwonly', 'ann_return', 'ann_var')
 LAMBDA_SLOTS = ('body', 'default')
 COMP_SLOTS = ('elt', 'iter0', 'iter1', 'cond')
 
@@ -199,6 +215,17 @@ class Emitter(object):
             out = ["obs(f'{%s!s:.0}')" % expr]      # value formatted to '' so that no object address reaches the stream
         elif slot == 'lambda_default_chain':
             out = ['(lambda q_=%s:0)()' % expr]
+        elif slot == 'ann_param':
+            h = self.helper()
+            out = ['def %s(p_:%s=0):return 0' % (h, expr), '%s()' % h]
+        elif slot == 'ann_kwonly':
+            h = self.helper()
+            out = ['def %s(*,p_:%s=0):return 0' % (h, expr), '%s()' % h]
+        elif slot == 'ann_return':
+            h = self.helper()
+            out = ['def %s()->%s:return 0' % (h, expr), '%s()' % h]
+        elif slot == 'ann_var':
+            out = ['w_:%s=0' % expr]
         else:
             raise ValueError(slot)
         return out + epilogue
@@ -217,9 +244,14 @@ class Emitter(object):
             body = body or ['pass']
             return ['class %s:\n%s' % (name, indent(body)), 'obs(%s)' % name]
         body = body + ["return'r'"]
+        if ')->(' in params:
+            params = params + ')'       # '...)->(annotation' + ')'  ; the header below supplies the closing parenthesis of the parameter list
+            header = '(%s' % params
+        else:
+            header = '(%s)' % params
         if child.kind == 'def':
-            return ['def %s(%s):\n%s' % (name, params, indent(body)), 'obs(%s(%s))' % (name, args)]
-        return ['async def %s(%s):\n%s' % (name, params, indent(body)), 'obs(run(%s(%s)))' % (name, args)]
+            return ['def %s%s:\n%s' % (name, header, indent(body)), 'obs(%s(%s))' % (name, args)]
+        return ['async def %s%s:\n%s' % (name, header, indent(body)), 'obs(run(%s(%s)))' % (name, args)]
 
     # ---- expression scopes ---------------------------------------------------------------------------------------------------------------
     def expr_scope(self, scope):
@@ -326,12 +358,18 @@ def emit(module):
 # ---- enumeration ---------------------------------------------------------------------------------------------------------------------------
 
 def bundles_for(kind, level, in_class=False):
-    """bundle ids available to a scope kind at a bundle-alphabet `level` ('full' | 'mid' | 'core')"""
+    """bundle ids available to a scope kind at a bundle-alphabet `level` ('full' | 'mid' | 'core' | 'ann')"""
+    if level == 'ann':
+        if kind in ('def', 'adef'):
+            return list(ANN_PARAM_BUNDLES) + ['assign', 'load']
+        if kind in ('module', 'class'):
+            return ['none', 'assign', 'ann_var_self', 'ann_var_obs']
+        level = 'core'
     if kind in ('module', 'def', 'adef', 'class'):
         if level == 'full':
-            ids = list(STMT_BUNDLES)
+            ids = [i for i in STMT_BUNDLES if not i.startswith('ann_var_')]
         elif level == 'mid':
-            ids = ['none', 'load', 'assign', 'store_only', 'aug_only', 'ann_only', 'for', 'except', 'import', 'from_import', 'def', 'class', 'walrus', 'del',
+            ids = ['none', 'load', 'assign', 'store_only', 'aug_only', 'ann_only', 'for', 'except', 'import', 'import_dotted', 'from_import', 'def', 'class', 'walrus', 'del',
                    'match_capture', 'typeparam', 'load_before', 'global', 'global_load', 'nonlocal', 'nonlocal_load']
         else:
             ids = ['none', 'load', 'assign', 'global', 'nonlocal', 'load_before']
@@ -339,7 +377,7 @@ def bundles_for(kind, level, in_class=False):
             ids = [i for i in ids if i not in MODULE_EXCLUDED]
         if kind in ('def', 'adef'):
             if level == 'full':
-                ids += list(DEF_PARAM_BUNDLES)
+                ids += [i for i in DEF_PARAM_BUNDLES if i not in ANN_PARAM_BUNDLES]
             elif level == 'mid':
                 ids += ['param_pos', 'param_pos_kwcall', 'param_default', 'param_kwonly', 'param_vararg', 'param_kwarg', 'param_posonly', 'param_rebind']
             else:
@@ -362,6 +400,8 @@ def slots_for(parent_kind, child_kind, level):
     if parent_kind in ('module', 'def', 'adef', 'class'):
         if child_kind in STMT_KINDS:
             return ['body']
+        if level == 'ann':
+            return list(ANN_SLOTS)
         if level == 'full':
             return list(STMT_PARENT_EXPR_SLOTS)
         if level == 'mid':
@@ -369,6 +409,8 @@ def slots_for(parent_kind, child_kind, level):
         return ['expr', 'default']
     if child_kind in STMT_KINDS:
         return []
+    if level == 'ann':
+        level = 'core'
     if parent_kind == 'lambda':
         return list(LAMBDA_SLOTS) if level != 'core' else ['body']
     if level == 'full':
